@@ -28,6 +28,7 @@ pub type JwkThumbprintSha256 = [u8; SHA256_LEN];
 ///
 /// [More Info](https://tools.ietf.org/html/rfc7517#section-4)
 #[derive(Clone, Debug, PartialEq, Eq, serde::Deserialize, serde::Serialize)]
+#[serde(try_from = "JwkDe")]
 pub struct Jwk {
   /// Key Type.
   ///
@@ -99,6 +100,51 @@ pub struct Jwk {
   /// [More Info](https://tools.ietf.org/html/rfc7517#section-4)
   #[serde(flatten)]
   pub(super) params: JwkParams,
+}
+
+/// Wire form of a [`Jwk`]: the type-specific members are read according to `kty`
+/// instead of being guessed from the member names that happen to be present.
+#[derive(serde::Deserialize)]
+struct JwkDe {
+  kty: JwkType,
+  #[serde(rename = "use")]
+  use_: Option<JwkUse>,
+  key_ops: Option<Vec<JwkOperation>>,
+  alg: Option<String>,
+  kid: Option<String>,
+  x5u: Option<Url>,
+  x5c: Option<Vec<String>>,
+  x5t: Option<String>,
+  #[serde(rename = "x5t#S256")]
+  x5t_s256: Option<String>,
+  #[serde(flatten)]
+  rest: serde_json::Map<String, serde_json::Value>,
+}
+
+impl TryFrom<JwkDe> for Jwk {
+  type Error = serde_json::Error;
+
+  fn try_from(de: JwkDe) -> core::result::Result<Self, Self::Error> {
+    let rest = serde_json::Value::Object(de.rest);
+    let params: JwkParams = match de.kty {
+      JwkType::Ec => JwkParams::Ec(serde_json::from_value(rest)?),
+      JwkType::Rsa => JwkParams::Rsa(serde_json::from_value(rest)?),
+      JwkType::Oct => JwkParams::Oct(serde_json::from_value(rest)?),
+      JwkType::Okp => JwkParams::Okp(serde_json::from_value(rest)?),
+    };
+    Ok(Jwk {
+      kty: de.kty,
+      use_: de.use_,
+      key_ops: de.key_ops,
+      alg: de.alg,
+      kid: de.kid,
+      x5u: de.x5u,
+      x5c: de.x5c,
+      x5t: de.x5t,
+      x5t_s256: de.x5t_s256,
+      params,
+    })
+  }
 }
 
 impl Jwk {
